@@ -4,7 +4,7 @@
 cd /verif
 OUT=/verif/seeded_regression.txt
 : > $OUT
-for d in seeded seeded2 seeded3 seeded4 seeded5 seeded6 seeded7 seeded8; do
+for d in seeded seeded2 seeded3 seeded4 seeded5 seeded6 seeded7 seeded8 seeded9; do
   for id in $(ls $d | grep '^C[0-9]'); do
     [ -f $d/$id/patch.diff ] || continue
     rc=$(LINES_MAX=3 timeout 1500 tools/mut.sh $d/$id/patch.diff $id 2>&1 | grep -o 'exit=[0-9]*' | head -1)
